@@ -25,7 +25,7 @@
 ; wfs: a stack value (slice header) is well formed
 (define-fun wfs ((Mem_Val (Array Int (Array Int Val))) (F_nodeConfig_typ (Array Int (_ BitVec 8)))
                  (F_nodeConfig_cap (Array Int Int)) (F_nodeConfig_log (Array Int Int)) (alloc Int) (s Slice)) Bool
-  (and (okslice s alloc) (>= (s-len s) 1) (not (= (s-arr s) 0))
+  (and (okslice s alloc) (>= (s-len s) 1) (not (= (s-arr s) 0)) (= (s-off s) 0)
        ((_ is v_cfgp) (sslot Mem_Val s 0))
        (let ((c (cfgp_of (sslot Mem_Val s 0))))
          (and (< 0 c) (< c alloc)
@@ -47,3 +47,33 @@
   (+ i 1)))))
 ; absolute cell of a slice's backing row (quantify over q for solver-friendly triggers)
 (define-fun cell ((Mem_Val (Array Int (Array Int Val))) (s Slice) (q Int)) Val (select (select Mem_Val (s-arr s)) q))
+
+; ---------------------------------------------------------------------
+; alias classification (reflect-based converter is an assumed contract, audited under C12)
+(declare-fun aliasStack (Val) Bool)       ;;@trusted abstract: dynamic type derives from Stack (or pointer to one) and holds a non-nil embedded pointer
+(declare-fun aliasStackOf (Val) Int)      ;;@trusted abstract: the embedded *stack of such a value
+(declare-fun aliasCond (Val) Bool)        ;;@trusted abstract: dynamic type derives from Condition and holds a non-nil embedded pointer
+(declare-fun aliasCondOf (Val) Int)       ;;@trusted abstract: the embedded *condition of such a value
+(assert (forall ((v Val)) (! (=> (aliasStack v) (and (or ((_ is v_other) v) ((_ is v_pStack) v)) (> (aliasStackOf v) 0))) :pattern ((aliasStack v))))) ;;@trusted only foreign types and *Stack convert; result non-nil
+(assert (forall ((v Val)) (! (=> (aliasCond v) (and (or ((_ is v_other) v) ((_ is v_pCond) v)) (> (aliasCondOf v) 0) (not (aliasStack v)))) :pattern ((aliasCond v))))) ;;@trusted only foreign types and *Condition convert; a type derives from at most one of the two
+(define-fun isStackLike ((v Val)) Bool (or ((_ is v_Stack) v) (aliasStack v)))
+(define-fun stackOf ((v Val)) Int (ite ((_ is v_Stack) v) (stack_of v) (ite (aliasStack v) (aliasStackOf v) 0)))
+(define-fun isCondLike ((v Val)) Bool (or ((_ is v_Cond) v) (aliasCond v)))
+(define-fun condOf ((v Val)) Int (ite ((_ is v_Cond) v) (cond_of v) (ite (aliasCond v) (aliasCondOf v) 0)))
+
+; ---------------------------------------------------------------------
+; push acceptance (C13) and the length after offering the first j values of a batch (C01/C03/C13)
+(define-fun accept ((nn Bool) (v Val)) Bool (not (and nn (isStackLike v))))
+(define-fun-rec plen ((M (Array Int (Array Int Val))) (x Slice) (nn Bool) (cp Int) (len0 Int) (j Int)) Int
+  (ite (<= j 0) len0
+       (ite (and (accept nn (sslot M x (- j 1))) (or (= cp 0) (< (plen M x nn cp len0 (- j 1)) cp)))
+            (+ (plen M x nn cp len0 (- j 1)) 1)
+            (plen M x nn cp len0 (- j 1)))))
+(define-fun stored ((M (Array Int (Array Int Val))) (x Slice) (nn Bool) (cp Int) (len0 Int) (j Int)) Bool
+  (and (accept nn (sslot M x j)) (or (= cp 0) (< (plen M x nn cp len0 j) cp))))
+
+; frame helpers (quantified definitions)
+(define-fun hdrsSameExcept ((A (Array Int Slice)) (B (Array Int Slice)) (r Int) (al Int)) Bool
+  (forall ((q Int)) (! (=> (and (<= 0 q) (< q al) (not (= q r))) (= (select A q) (select B q))) :pattern ((select A q)))))
+(define-fun memSameExcept ((A (Array Int (Array Int Val))) (B (Array Int (Array Int Val))) (a Int) (al Int)) Bool
+  (forall ((q Int)) (! (=> (and (<= 0 q) (< q al) (not (= q a))) (= (select A q) (select B q))) :pattern ((select A q)))))
